@@ -1,1 +1,19 @@
-fn main() { println!("pkverif"); }
+//! pkverif: conformance harness binding the TLA+ specifications in /verif/spec to the code in /repo.
+mod hid;
+mod util;
+
+fn main() {
+    let raw: Vec<String> = std::env::args().skip(1).collect();
+    if raw.is_empty() {
+        eprintln!("usage: pkverif <domain> <mode> [--key value ...]");
+        std::process::exit(2);
+    }
+    let args = util::Args::parse(&raw[1..]);
+    match raw[0].as_str() {
+        "hid" => hid::main(&args),
+        other => {
+            eprintln!("pkverif: unknown domain {other}");
+            std::process::exit(2);
+        }
+    }
+}
